@@ -194,8 +194,24 @@ where
 
 		t.amount_debited = amount_debited;
 
-		// store extra payment proof info, if required
-		if let Some(ref p) = slate.payment_proof {
+		// store extra payment proof info, if required. The recipient is the one asked
+		// for at initiation (kept in the context): the slate handed in may be the
+		// counterparty's reply, whose proof fields are only checked at finalization
+		let requested_proof = match context.payment_proof_recipient_address {
+			Some(a) => Some((
+				a,
+				slate
+					.payment_proof
+					.as_ref()
+					.and_then(|p| p.receiver_signature),
+			)),
+			// context stored before the requested address was kept in it
+			None => slate
+				.payment_proof
+				.as_ref()
+				.map(|p| (p.receiver_address, p.receiver_signature)),
+		};
+		if let Some((receiver_address, receiver_signature)) = requested_proof {
 			let sender_address_path = match context.payment_proof_derivation_index {
 				Some(p) => p,
 				None => {
@@ -212,8 +228,8 @@ where
 			)?;
 			let sender_address = OnionV3Address::from_private(&sender_key.0)?;
 			t.payment_proof = Some(StoredProofInfo {
-				receiver_address: p.receiver_address,
-				receiver_signature: p.receiver_signature,
+				receiver_address,
+				receiver_signature,
 				sender_address: sender_address.to_ed25519()?,
 				sender_address_path,
 				sender_signature: None,
